@@ -79,3 +79,142 @@ Definition local_int_Q := local_int Q Qplus Qminus Qmult Qdiv inject_Z.
 Definition cubic_R := cubic R Rplus Rminus Rmult Rdiv IZR.
 Definition coeffs_R := coeffs R Rplus Rminus Rmult Rdiv IZR.
 Definition local_int_R := local_int R Rplus Rminus Rmult Rdiv IZR.
+
+(* ---- cubic spline on a whole table: buildInterpolation + solveTridiagonalLinearSystem (Thomas), evaluation with
+   the interval search, computeIntegral, computeMeanValue.  A collocation point is (x, y, d). *)
+Section SplineTable.
+  Variable T : Type.
+  Variables (add sub mul div : T -> T -> T) (leb : T -> T -> bool) (ofZ : Z -> T).
+  Local Notation "a + b" := (add a b). Local Notation "a - b" := (sub a b).
+  Local Notation "a * b" := (mul a b). Local Notation "a / b" := (div a b).
+  Local Notation k := ofZ.
+  Definition pt3 := (T * T * T)%type.
+  Definition px (p : pt3) : T := fst (fst p).
+  Definition py (p : pt3) : T := snd (fst p).
+  Definition pd (p : pt3) : T := snd p.
+
+  (* buildInterpolation: the loop that assembles the rows (main diagonal md[i], upper diagonal mu[i], right-hand side
+     points[i].d) of the symmetric tridiagonal system; ho, uo are the loop-carried variables; the last row is
+     md[s] = 2 ho, rhs uo (its upper diagonal entry does not exist: 0) *)
+  Fixpoint rows (ho uo x0 y0 : T) (rest : list (T * T)) : list (T * T * T) :=
+    match rest with
+    | [] => [(k 2 * ho, k 0, uo)]
+    | p1 :: rest' =>
+        let hn := k 1 / (fst p1 - x0) in
+        let un := k 3 * hn * hn * (snd p1 - y0) in
+        (k 2 * (hn + ho), hn, un + uo) :: rows hn un (fst p1) (snd p1) rest'
+    end.
+  (* solveTridiagonalLinearSystem: forward elimination (m = c[i-1]/b[i-1]; b[i] -= m c[i-1]; d[i] -= m d[i-1]) then
+     back substitution (d[n-1] /= b[n-1]; d[i] = (d[i] - c[i] d[i+1]) / b[i]).  b, r: the already eliminated pivot and
+     right-hand side of the current row, c its upper-diagonal entry, rest the rows below. *)
+  Fixpoint sweep (b r c : T) (rest : list (T * T * T)) : list T :=
+    match rest with
+    | [] => [r / b]
+    | row1 :: rest' =>
+        let m := c / b in
+        let tail := sweep (fst (fst row1) - m * c) (snd row1 - m * r) (snd (fst row1)) rest' in
+        (r - c * hd (k 0) tail) / b :: tail
+    end.
+  Definition derivs (tab : list (T * T)) : list T :=
+    match tab with
+    | [] => []
+    | [p] => [k 0]
+    | p0 :: rest => match rows (k 0) (k 0) (fst p0) (snd p0) rest with
+                    | row0 :: rs => sweep (fst (fst row0)) (snd row0) (snd (fst row0)) rs
+                    | [] => []
+                    end
+    end.
+  (* setCollocationPoints *)
+  Definition build (tab : list (T * T)) : list pt3 := combine tab (derivs tab).
+
+  (* linear extension through a collocation point *)
+  Definition ext (p : pt3) (x : T) : T * T * T := (py p + (x - px p) * pd p, pd p, k 0).
+  Definition clamp (p : pt3) : T * T * T := (py p, k 0, k 0).
+  (* internals::lower_bound with p.x < x: the first point q with x <= q.x (and the point before it) *)
+  Fixpoint sfind (x : T) (p : pt3) (rest : list pt3) : pt3 * option pt3 :=
+    match rest with
+    | [] => (p, None)
+    | q :: rest' => if leb x (px q) then (p, Some q) else sfind x q rest'
+    end.
+  (* computeCubicSplineInterpolation(AndDerivative)<extrap> and CubicSpline::getValues: value, derivative, second derivative *)
+  Definition spl (extrap : bool) (pts : list pt3) (x : T) : option (T * T * T) :=
+    match pts with
+    | [] => None
+    | [p] => Some (clamp p)
+    | p0 :: rest =>
+        if leb x (px p0) then Some (if extrap then ext p0 x else clamp p0)
+        else match sfind x p0 rest with
+             | (pa, Some pb) => Some (cubic T add sub mul div ofZ (px pa) (py pa) (pd pa) (px pb) (py pb) (pd pb) x)
+             | (pl, None) => Some (if extrap then ext pl x else clamp pl)
+             end
+    end.
+
+  (* computeIntegral *)
+  Definition half : T := k 1 / k 2.
+  Definition lint (pa pb : pt3) (x0 x1 : T) : T :=
+    local_int T add sub mul div ofZ (px pa) (py pa) (pd pa) (px pb) (py pb) (pd pb) x0 x1.
+  (* both bounds in the same extrapolated part *)
+  Definition extint (p : pt3) (xa xb : T) : T :=
+    py p * (xb - xa) + half * pd p * ((xb - px p) * (xb - px p) - (xa - px p) * (xa - px p)).
+  (* from the node p up to xb (xb beyond p): whole pieces, then the piece containing xb or the right extrapolated part *)
+  Fixpoint tailsum (xb : T) (p : pt3) (rest : list pt3) : T :=
+    match rest with
+    | [] => py p * (xb - px p) + half * pd p * ((xb - px p) * (xb - px p))
+    | q :: rest' => if leb xb (px q) then lint p q (px p) xb else lint p q (px p) (px q) + tailsum xb q rest'
+    end.
+  (* xa beyond p: look for the piece containing xa *)
+  Fixpoint walk (xa xb : T) (p : pt3) (rest : list pt3) : T :=
+    match rest with
+    | [] => extint p xa xb
+    | q :: rest' => if leb xa (px q)
+                    then (if leb xb (px q) then lint p q xa xb else lint p q xa (px q) + tailsum xb q rest')
+                    else walk xa xb q rest'
+    end.
+  Definition integ0 (pts : list pt3) (xa xb : T) : T :=
+    match pts with
+    | [] => k 0
+    | p0 :: rest =>
+        if leb xa (px p0)
+        then (if leb xb (px p0) then extint p0 xa xb
+              else (py p0 * (px p0 - xa) - half * pd p0 * ((xa - px p0) * (xa - px p0))) + tailsum xb p0 rest)
+        else walk xa xb p0 rest
+    end.
+  Definition integ (pts : list pt3) (xa xb : T) : option T :=
+    match pts with
+    | [] => None
+    | [p] => Some (py p * (xb - xa))
+    | _ => Some (if leb xa xb then integ0 pts xa xb else k 0 - integ0 pts xb xa)
+    end.
+  Definition mean (pts : list pt3) (xa xb : T) : option T :=
+    match integ pts xa xb with Some v => Some (v / (xb - xa)) | None => None end.
+
+  (* findIndex as an index (the C++ returns the index, `seg` above returns the two points) *)
+  Fixpoint fidx (a : T) (i : nat) (rest : list T) : nat :=
+    match rest with
+    | [] => i
+    | x1 :: rest' => if leb a x1 then i else fidx a (S i) rest'
+    end.
+End SplineTable.
+
+Definition Qadd' (a b : Q) := Qred (a + b).
+Definition Qsub' (a b : Q) := Qred (a - b).
+Definition Qmul' (a b : Q) := Qred (a * b).
+Definition Qdiv' (a b : Q) := Qred (a / b).
+Definition build_Q := build Q Qadd' Qsub' Qmul' Qdiv' inject_Z.
+Definition spl_Q := spl Q Qadd' Qsub' Qmul' Qdiv' Qleb inject_Z.
+Definition integ_Q := integ Q Qadd' Qsub' Qmul' Qdiv' Qleb inject_Z.
+Definition mean_Q := mean Q Qadd' Qsub' Qmul' Qdiv' Qleb inject_Z.
+Definition fidx_Q := fidx Q Qleb.
+
+Definition rows_R := rows R Rplus Rminus Rmult Rdiv IZR.
+Definition sweep_R := sweep R Rminus Rmult Rdiv IZR.
+Definition derivs_R := derivs R Rplus Rminus Rmult Rdiv IZR.
+Definition build_R := build R Rplus Rminus Rmult Rdiv IZR.
+Definition spl_R := spl R Rplus Rminus Rmult Rdiv Rleb IZR.
+Definition lint_R := lint R Rplus Rminus Rmult Rdiv IZR.
+Definition extint_R := extint R Rplus Rminus Rmult Rdiv IZR.
+Definition tailsum_R := tailsum R Rplus Rminus Rmult Rdiv Rleb IZR.
+Definition walk_R := walk R Rplus Rminus Rmult Rdiv Rleb IZR.
+Definition integ0_R := integ0 R Rplus Rminus Rmult Rdiv Rleb IZR.
+Definition integ_R := integ R Rplus Rminus Rmult Rdiv Rleb IZR.
+Definition mean_R := mean R Rplus Rminus Rmult Rdiv Rleb IZR.
